@@ -227,6 +227,10 @@ class Program:
                 # attribute-macro generated impls: the impl span is the attribute, the trait name is not recoverable
                 r = [n for n in self.impl_index.get((ty, '*', meth), []) if self._macro_impl(n)]
                 if len(r) == 1: return r[0]
+                # derive macros generating several trait impls under one span (Validate / ValidateArgs): unique method name on the type
+                r = sorted(set(self.impl_index.get((ty, '*', meth), [])))
+                if len(r) == 1 and tr not in ('Clone', 'PartialEq', 'Debug', 'Default', 'Display', 'Deref', 'From', 'Into', 'Iterator', 'Drop', 'ToString'):
+                    return r[0]
                 return None
             ty = type_head(inner)
             r = self.impl_index.get((ty, None, meth))
@@ -260,11 +264,19 @@ class Program:
         ty, tr = self.impl_header(m.group(2))
         return tr is not None and (tr.startswith('#') or not re.fullmatch(r'\w+', tr))
 
-    def fn_of_closure(self, ident, creator=None):
+    def fn_of_closure(self, ident, creator=None, args=None, machine=None):
         c = self.closure_index.get(ident)
         if not c: return None
         if len(c) == 1 or creator is None: return c[0]
         best = [n for n in c if n.startswith(creator + '::{closure#')]
+        if len(best) > 1 and args and machine is not None:
+            # several closures of one function share a macro span: tell them apart by the type of the first argument
+            a0 = machine.rdd(args[0]) if isinstance(args[0], (Ref, BoxV)) else args[0]
+            if isinstance(a0, Adt):
+                for n in best:
+                    f = self.fns[n]
+                    if not f.parsed: parse_fn(f)
+                    if type_head(f.types.get(2, '')) == a0.name: return n
         if best: return best[0]
         # closures created inside closures of the creator
         best = [n for n in c if n.startswith(creator.split('::{closure#')[0])]
@@ -1377,7 +1389,7 @@ class Machine:
     def call_value_ref(self, ref, clo, args):
         if isinstance(clo, FnItem):
             return self.call(clo.path, list(args), None, '')
-        name = self.prog.fn_of_closure(clo.ident, getattr(clo, 'creator', None))
+        name = self.prog.fn_of_closure(clo.ident, getattr(clo, 'creator', None), args, self)
         if name is None:
             raise EncoderGap('closure body for ' + clo.ident)
         fn = self.prog.fns[name]
